@@ -4,6 +4,7 @@
     stated precondition; their composition along a whole exchange (which message is missing,
     "at most one") is checked exhaustively over fault positions by harness/props/C11.py, not
     proved as one statement. *)
+From IsoTp Require Proofs.JustifiedP.
 From IsoTp Require Import Base.Prelude Model.Micro Spec.ConfigSpec Spec.Stream
   Proofs.Events Proofs.Inv Proofs.FsmProps Proofs.RxP Proofs.AnomalyP Proofs.FaultP Proofs.LocalP.
 
@@ -73,6 +74,13 @@ Theorem C11_after_fault : forall c mk, (forall d, f_data (mk d) = d) ->
     tx_state s' = tx_state s /\ tx_queue s' = tx_queue s /\ active s' = active s.
 Proof. exact rx_stream. Qed.
 
+(** whatever the fault (any number of them, in fact): what is delivered is never truncated, merged or
+    corrupted - every delivery of every run is the data of one Single Frame or of one First Frame and
+    the in-sequence Consecutive Frames accepted after it (C05_justified_run) *)
+Theorem C11_never_corrupted : forall c t0 ms,
+  Forall (fun d => JustifiedP.justified c (fst d) (snd d)) (JustifiedP.jrun c (init_layer c t0) [] ms).
+Proof. exact JustifiedP.justified_from_init. Qed.
+
 Print Assumptions C11_dup_single.
 Print Assumptions C11_lost_first_frame.
 Print Assumptions C11_sequence_gap.
@@ -80,3 +88,4 @@ Print Assumptions C11_lost_tail_reported.
 Print Assumptions C11_lost_fc_reported.
 Print Assumptions C11_dup_cts.
 Print Assumptions C11_after_fault.
+Print Assumptions C11_never_corrupted.
